@@ -343,6 +343,7 @@ def check(prog, run):
     check_resolver_invocation(prog, run, "R15")
     check_no_blocking_wait(prog, run, "R16")
     check_completion_failure(prog, run, "R17")
+    check_wrap_callable_transparent(prog, run, "R18")
     from .. import sentinel
     sentinel.check(prog, run, "R10", ["py_gql.execution"], 6,
                    "an unexpected IndexError/KeyError from a resolver would be lost under one executor/runtime and surface under the others")
@@ -949,3 +950,49 @@ def check_completion_failure(prog, run, rule_id):
                                "%s completes the value outside any ResolverError handler while the other executor handles that class: a "
                                "ResolverError raised by a type resolver or a scalar serializer escapes the entry point under this executor "
                                "and is a field error under the other" % q)
+
+
+def check_wrap_callable_transparent(prog, run, rule_id):
+    """What a runtime wraps a resolver in forwards the field's arguments untouched."""
+    r = run.rule(rule_id, "every Runtime.wrap_callable: the resolver is later called with (root, context, info, **<field arguments>) and the "
+                          "argument names belong to the schema author - whatever receives that call binds nothing by name: a nested wrapper "
+                          "takes (*args, **kwargs) only, and a functools.partial is taken over a callable outside the package (the "
+                          "executor's own `submit(fn, /, ...)`) or over a package function without named parameters; otherwise a field "
+                          "argument that happens to be called like the parameter (`func`) fails under this runtime only", 2)
+    n = 0
+    for c in prog.all_classes():
+        if not c.module.name.startswith(RT):
+            continue
+        m = c.methods.get("wrap_callable")
+        if m is None:
+            continue
+        run.looked_at(m)
+        n += 1
+        pf = m.params[1] if len(m.params) > 1 else None
+        for g in m.nested.values():
+            a = g.node.args
+            named = [p.arg for p in a.posonlyargs + a.args + a.kwonlyargs]
+            forwards = any(isinstance(x, ast.Call) and any(isinstance(y, ast.Name) and y.id == pf for y in ast.walk(x)) for x in ast.walk(g.node))
+            if forwards:
+                r.instance("%s.wrap_callable: wrapper %s(%s)" % (c.name, g.name, ", ".join(named) or "*args, **kwargs"))
+                if named and not (a.posonlyargs and not a.args and not a.kwonlyargs):
+                    run.report(r, "%s:%s.wrap_callable:wrapper-binds-names(%s)" % (c.module.name, c.name, ",".join(named)), g.where(),
+                               "the wrapper %s takes the named parameter(s) %s: a field argument of that name collides with it" % (g.name, named))
+        for x in own_nodes(m.node):
+            if isinstance(x, ast.Call) and ast.unparse(x.func) in ("functools.partial", "ft.partial", "partial") and x.args:
+                tgt = x.args[0]
+                cal = prog.resolve_callable(m, tgt) if isinstance(tgt, (ast.Attribute, ast.Name)) else []
+                cal = [k for k in cal if k.name != "__init__"]
+                r.instance("%s.wrap_callable: partial over `%s` (%s)" % (c.name, ast.unparse(tgt), ", ".join(k.qualname for k in cal) or "outside the package"))
+                for k in cal:
+                    a = k.node.args
+                    bound = len(x.args) - 1 + (1 if k.cls is not None else 0)       # self + the positional arguments the partial fixes
+                    named = [p.arg for p in a.args][bound:] + [p.arg for p in a.kwonlyargs]
+                    fixed_by_name = [p.arg for p in a.args][(1 if k.cls is not None else 0):bound]
+                    if fixed_by_name or named:
+                        run.report(r, "%s:%s.wrap_callable:partial-binds-names(%s)" % (c.module.name, c.name, k.qualname), m.where(x),
+                                   "`%s` calls %s with the resolver's arguments, and %s names its parameter(s) %s: a field argument called "
+                                   "like one of them is taken for it (`got multiple values for argument`), under this runtime only"
+                                   % (" ".join(ast.unparse(x).split()), k.qualname, k.qualname, fixed_by_name + named))
+    if n < 3:
+        raise AnalysisError("C08.%s: fewer than three runtimes define wrap_callable (%d)" % (rule_id, n))
